@@ -30,7 +30,7 @@ impl Monitor for C11 {
         if tier == Tier::Sanitizer {
             vec!["joined"]
         } else {
-            vec!["joined", "no_join_accept", "join_request_ok", "joined_in_rx2", "joined_after_corrupt_copy", "rejoin_from_joined", "cflist_type0_applied", "cflist_invalid_freq_ignored", "rx2dr_ignored", "rx1off_ignored", "first_uplink_ok", "send_unjoined_refused"]
+            vec!["joined", "no_join_accept", "join_request_ok", "joined_in_rx2", "joined_after_corrupt_copy", "rejoin_from_joined", "cflist_type0_applied", "cflist_zero_entry_withdraws", "cflist_invalid_freq_ignored", "rx2dr_ignored", "rx1off_ignored", "first_uplink_ok", "send_unjoined_refused"]
         }
     }
 
@@ -145,18 +145,33 @@ fn join_case(front: Front, reg: Reg, dl_fixed: Option<u8>, rng: &mut Prng, col: 
     let opts = DevOpts { rng_seed: Some(rng.next_u64()), bias, ..Default::default() };
     let mut dev: Dev = Dev::new(front, reg, creds.clone(), &opts);
     let failed_first = if dl_fixed.is_some() { 0 } else { *rng.pick(&[0u64, 0, 0, 1, 2, 5]) };
-    let rejoin = dl_fixed.is_none() && rng.chance(1, 8);
+    let rejoin = dl_fixed.is_none() && rng.chance(1, 4);
     let mut attempt = 0;
     let mut nonces_seen: Vec<u16> = vec![];
     let mut joined_before: Option<([u8; 16], [u8; 16], u32)> = None;
     let rounds = failed_first + 1 + if rejoin { 1 } else { 0 };
+    let mut last_cf: Option<Cf> = None;
+    let mut was_joined_hint = false;
     for round in 0..rounds {
         attempt += 1;
         let give_accept = round >= failed_first;
         // ---- the accept the network will (maybe) send ------------------------------------------
         let dl = dl_fixed.unwrap_or_else(|| if rng.chance(1, 2) { rng.u8() } else { (rng.below(8) as u8) << 4 | *rng.pick(&[0u8, 1, 2, 3, 4, 5, 8, 9, 10, 13]) });
         let rxd = if rng.chance(1, 4) { rng.u8() } else { rng.below(16) as u8 };
-        let (cf, cf_class) = gen_cf(reg, rng);
+        let (mut cf, mut cf_class) = gen_cf(reg, rng);
+        // a re-join whose CFList withdraws (entry 0) some of the slots an earlier accept filled
+        if was_joined_hint && !reg.fixed() && rng.chance(1, 2) {
+            if let Some(Cf::Type0(prev)) = &last_cf {
+                let mut f = *prev;
+                for x in f.iter_mut() {
+                    if rng.bool() {
+                        *x = 0;
+                    }
+                }
+                cf = Cf::Type0(f);
+                cf_class = "t0-withdraw";
+            }
+        }
         let ja = JoinAcceptDesc { join_nonce: rng.below(1 << 24) as u32, net_id: rng.below(1 << 24) as u32, dev_addr: rng.next_u32(), dl_settings: dl, rx_delay: rxd, cf_list: cf_wire(&cf) };
         // The accept depends on nothing in the request (1.0.x), so it can be built up front.
         let good = encode_join_accept(&creds.app_key, &ja);
@@ -350,6 +365,8 @@ fn join_case(front: Front, reg: Reg, dl_fixed: Option<u8>, rng: &mut Prng, col: 
             }
         }
         joined_before = Some((nk, ak, addr));
+        last_cf = Some(cf.clone());
+        was_joined_hint = true;
         // ---- parameters applied / ignored -------------------------------------------------------
         let s = dev.snapshot();
         let exp_delay = match rxd & 0x0f {
@@ -391,8 +408,12 @@ fn join_case(front: Front, reg: Reg, dl_fixed: Option<u8>, rng: &mut Prng, col: 
                     let ch = s.region.channels[j + i];
                     let enabled = s.region.channel_mask[(j + i) / 8] & (1 << ((j + i) % 8)) != 0;
                     if *raw == 0 {
-                        if ch.is_some() && enabled && ch.map(|c| c.ul_frequency) != snap_before.region.channels[j + i].map(|c| c.ul_frequency) {
-                            col.violation("C11|cflist|zero-freq-installed", "a zero CFList entry created a channel", json!({"ctx": ctx("cf"), "index": j + i}));
+                        // an entry of 0 marks the slot as unused: no usable channel may remain there
+                        if ch.is_some() && enabled {
+                            let kept = ch.map(|c| c.ul_frequency) == snap_before.region.channels[j + i].map(|c| c.ul_frequency);
+                            col.violation(&format!("C11|cflist|zero-entry-leaves-channel|{}", if kept { "kept-from-before" } else { "created" }), "a CFList entry of 0 (slot unused) left or created a usable channel in that slot", json!({"ctx": ctx("cf"), "index": j + i, "channel": format!("{:?}", ch)}));
+                        } else {
+                            col.event("cflist_zero_entry_withdraws");
                         }
                     } else if reg.clearly_valid_freq(hz) {
                         match ch {
